@@ -29,7 +29,7 @@ PROPS["C01"] = {
     "rule": "rapid-generated histories of 5-60 valid CREATE TABLE / INSERT (single, multi-row, with column lists, direct values incl. negative ints, bytes, NULL) / "
             "UPDATE / DELETE statements over 1-12 tables, executed as SQL text through Session.ExecQuery (direct statement values through engine.Evaluate*), "
             "with generated flushes; after every k-th statement and at the end SELECT * of each table is compared as a sequence with the reference model, "
-            "row ids must be stable, strictly increasing and never reused, and sys_schema / sys_pages must equal the declared schemas. "
+            "row ids must be stable, strictly increasing and never reused, and sys_schema / sys_pages must equal the declared schemas; the end state is compared again after a flush + reload and after USE of another database and back (close and reopen without log replay). "
             "Non-trivial: an UPDATE/DELETE on a table that later goes through >=1 more leaf split, or >=2 switches between tables among the inserts, or >=7 tables (sys_pages split); distinct by case JSON.",
     "technique": "stateful property-based testing (rapid) against an in-memory reference model",
     "level_text": "Model-based random search over statement histories biased to cross the structural thresholds (9-cell leaves, catalog splits, multi-level trees in the thorough tier). Finds lost/duplicated/resurrected/leaked rows and catalog drift on the explored histories; it cannot show their absence in general.",
@@ -54,7 +54,7 @@ PROPS["C02"] = {
 PROPS["C03"] = {
     "kind": "harness", "test": "TestC03", "level": "fault_enumeration", "journal": True,
     "tiers": tiers(800, 8, 12000, 16),
-    "rule": "rapid-generated histories (3-18 valid statements, generated flushes) in which 1-3 multi-row INSERT/UPDATE/DELETE statements are victims; the verif hook fires before "
+    "rule": "rapid-generated histories (3-18 valid statements, generated flushes) in which 1-3 INSERT/UPDATE/DELETE statements (multi-row three times as often as single-row) are victims; the verif hook fires before "
             "EVERY write and fsync the victim issues on the log, and at each such point two crash images are taken (log as written so far; log cut at the last fsync); every image is "
             "recovered with the real InitStorage and must equal the model state before the victim plus the first r row operations for some r in 0..n (other tables untouched, catalog intact), "
             "then 1-3 follow-up multi-row inserts run on the recovered files and are compared with the model continued from that prefix. "
@@ -149,7 +149,7 @@ PROPS["C08"] = {
     "rule": "rapid-generated cases: a schema of 1-8 columns in any mix/order of the four types (first column a unique row number), optionally 3-40 pre-filled and flushed rows (a table over several clean leaves), then two phases of single-row operations: INSERT and UPDATE of boundary-biased values "
             "(INT/BIGINT extremes, 2^53+1, empty strings, NUL/0xFF/invalid UTF-8 bytes, NULLs), rows built to encode to exactly 400 bytes (must be accepted) and 401 bytes (must be refused), wrong-kind values, INT beyond 32 bits; "
             "each statement as SQL text when the dialect can express it, else as direct statement values. After every statement SELECT * must equal the model bit-for-bit (refused statements: error and unchanged table); "
-            "the comparison is repeated after flush + cache shrink to 6 pages + scan of another table (eviction, reload from disk), after a clean restart, and (phase 2, unflushed) after crash + recovery. "
+            "the comparison is repeated after flush + cache shrink to 6 pages + scan of another table (eviction, reload from disk), after a clean restart, (one case in three) after USE of another database and back, and (phase 2, unflushed) after crash + recovery. "
             "Non-trivial: a 400-byte boundary row with at least one reload, or a refused value placed in a column that is not the first; distinct by case JSON.",
     "technique": "property-based round-trip testing (rapid) across four observation points (memory, reloaded page, restart, crash recovery) against a reference model with its own size/validity rules",
     "level_text": "Random search biased to encoding boundaries; the 400/401 boundary is computed by the model's own size formula, not taken from the code. Search, not proof.",
@@ -235,7 +235,7 @@ PROPS["C11"] = {
 PROPS["C19"] = {
     "kind": "csvimport", "test": "TestVerifC19", "level": "exploration",
     "tiers": tiers(6000, 8, 100000, 16),
-    "rule": "rapid-generated imports run through the real doBatchInsert / csvToSql / colDataTypes against a real RelationService: a destination table of 1-6 columns over the four types (column types read back from the real catalog), an injective list of mapped destination columns with arbitrary source indexes "
+    "rule": "rapid-generated imports run through the real makeConfig (the program's own flag variables are set from the case) / doBatchInsert / csvToSql / colDataTypes against a real RelationService: a destination table of 1-6 columns over the four types (column types read back from the real catalog), an injective list of mapped destination columns with arbitrary source indexes "
             "(repeats allowed), separator in {',', ';', tab, '|'}, 0-3 pre-existing rows, and a stream of 1-25 records built by class so that the expected outcome of each record is known by construction: valid (numbers in plain / zero-padded / signed / extreme forms, every accepted boolean spelling in any case, "
             "strings containing the separator, quotes, line feeds), \\N in a mapped field, unparsable or out-of-range value for the column type, short record, bare quote in an unquoted field, text after a closing quote, extra fields, oversize string. "
             "Oracle: exactly one ok/error event per record, in record order and of the expected kind; afterwards Fetch returns the pre-existing rows untouched followed by exactly the accepted records in input order, mapped columns holding the converted values, unmapped columns NULL. "
